@@ -784,6 +784,97 @@ func c12BarrierRounds(rounds, conc int) (nrounds int, key, detail string) {
 	return rounds, "", ""
 }
 
+// c12IdleRetire: serve, stay idle longer than MaxIdleWorkerDuration until every worker has been retired
+// (counted through the worker pool's create / exit events), then a burst of Concurrency+2 connections
+// whose handlers block until the burst is judged: more than Concurrency handlers in flight is a
+// violation, exactly.  Repeated, since mistakes in the retirement bookkeeping add up.
+func c12IdleRetire(cycles, conc int) (int, string, string) {
+	var entered atomic.Int32
+	var release atomic.Pointer[chan struct{}]
+	var live atomic.Int32 // workers created minus workers exited
+	VerifHook = func(ev string, o1, o2 any, a, b int) {
+		switch ev {
+		case "wp.get.create":
+			live.Add(1)
+		case "wp.exit":
+			live.Add(-1)
+		}
+	}
+	defer func() { VerifHook = nil }()
+	s := &Server{Concurrency: conc, MaxIdleWorkerDuration: 4 * time.Millisecond, Logger: c12NopLogger{}, Handler: func(ctx *RequestCtx) {
+		entered.Add(1)
+		<-*release.Load()
+		ctx.SetBodyString("ok")
+	}}
+	ln := fasthttputil.NewInmemoryListener()
+	done := make(chan struct{})
+	go func() { s.Serve(ln); close(done) }()
+	defer func() { ln.Close(); <-done }()
+	burst := func(k int, block bool) (admitted int, ok bool) {
+		rel := make(chan struct{})
+		if !block {
+			close(rel)
+		}
+		release.Store(&rel)
+		entered.Store(0)
+		var refused atomic.Int32
+		var wg sync.WaitGroup
+		for i := 0; i < k; i++ {
+			c, err := ln.Dial()
+			if err != nil {
+				return 0, false
+			}
+			c.Write([]byte("GET / HTTP/1.1\r\nHost: x\r\nConnection: close\r\n\r\n"))
+			wg.Add(1)
+			go func() {
+				defer wg.Done()
+				defer c.Close()
+				var resp Response
+				c.SetReadDeadline(time.Now().Add(30 * time.Second))
+				if err := resp.Read(bufio.NewReader(c)); err != nil || resp.StatusCode() == StatusServiceUnavailable {
+					refused.Add(1)
+				}
+			}()
+		}
+		dl := time.Now().Add(20 * time.Second)
+		ok = true
+		for block && int(entered.Load()+refused.Load()) < k {
+			if time.Now().After(dl) {
+				ok = false
+				break
+			}
+			time.Sleep(50 * time.Microsecond)
+		}
+		admitted = int(entered.Load())
+		if block {
+			close(rel)
+		}
+		wg.Wait()
+		return admitted, ok
+	}
+	for cyc := 1; cyc <= cycles; cyc++ {
+		if _, ok := burst(conc, false); !ok {
+			vfInfra("c12 idle-retire: dial failed")
+			return cyc, "", ""
+		}
+		dl := time.Now().Add(10 * time.Second)
+		for live.Load() > 0 && time.Now().Before(dl) { // idle until every worker is retired
+			time.Sleep(time.Millisecond)
+		}
+		time.Sleep(6 * time.Millisecond)
+		admitted, ok := burst(conc+2, true)
+		if !ok {
+			vfInfra(fmt.Sprintf("c12 idle-retire: burst not decided (cycle %d)", cyc))
+			return cyc, "", ""
+		}
+		if admitted > conc {
+			return cyc, fmt.Sprintf("burst-after-idle conc=%d", conc),
+				fmt.Sprintf("cycle %d: after the idle workers had been retired, %d connections of a burst were served at the same time with Concurrency=%d", cyc, admitted, conc)
+		}
+	}
+	return cycles, "", ""
+}
+
 func TestVerifC12Limits(t *testing.T) {
 	vfOpen(t)
 	rng := vfRand()
@@ -835,6 +926,14 @@ func TestVerifC12Limits(t *testing.T) {
 		barrier += n
 		if key != "" {
 			vfViol("direct:"+key, detail, vfRec{"rounds": n, "conc": conc})
+		}
+	}
+	// idle-worker retirement followed by a burst above the limit
+	for _, conc := range []int{1, 2} {
+		n, key, detail := c12IdleRetire(vfEnvInt("VERIF_C12_RETIRE", 6), conc)
+		barrier += n
+		if key != "" {
+			vfViol("direct:"+key, detail, vfRec{"cycles": n, "conc": conc})
 		}
 	}
 	vfStat(nexec+barrier, nexec+barrier, vfRec{"events": total, "barrier_rounds": barrier, "trace_files": strings.Join(files, ",")})
